@@ -14,6 +14,7 @@ mod tkey;
 mod wire;
 mod text;
 mod logconc;
+mod stab;
 
 /// No single allocation above the limit: a reader that sizes a buffer from damaged bytes must not take the
 /// machine down; the request fails, Rust aborts, and the abort is reported with the case in flight (C09).
@@ -56,6 +57,7 @@ fn main() {
         "mani-run" => mani_run::run(&args[2..]),
         "mani-recover" => mani_run::recover(&args[2..]),
         "mani-cuts" => mani_run::cuts(&args[2..]),
+        "stab-replay" => stab::main(&args[2..]),
         "logconc-stress" => logconc::main(&args[2..]),
         "text-replay" => text::main(&args[2..]),
         "wire-replay" => wire::main(&args[2..]),
